@@ -190,118 +190,4 @@ theorem orSimplify_sound (I : Interp) (cl s) (h : orSimplify cl = .ok s) (hk : g
     exact hl.1 ⟨tt, ht, tr_tt I⟩
   · contradiction
 
-theorem impliesSimplify_sound (I : Interp) (cl s) (h : impliesSimplify cl = .ok s) (hk : goalIsIff cl = true) : s.holds I := by
-  unfold impliesSimplify at h
-  split at h
-  · contradiction
-  rename_i g lhs rhs hg
-  have hgi := goal_iff hg hk
-  subst hgi
-  split at h <;> try contradiction
-  dsimp only at h
-  repeat' (split at h <;> try contradiction)
-  all_goals (cases h)
-  all_goals (simp_all [Seq.holds])
-  all_goals (try grind [tr_tt, tr_ff])
-
-theorem boolSimplify_sound (I : Interp) (cl s) (h : boolSimplify cl = .ok s) (hk : goalIsIff cl = true) : s.holds I := by
-  unfold boolSimplify at h
-  split at h
-  · contradiction
-  rename_i g lhs rhs hg
-  have hgi := goal_iff hg hk
-  subst hgi
-  repeat' (split at h <;> try contradiction)
-  all_goals (cases h)
-  all_goals (simp_all [Seq.holds])
-  all_goals (try grind [tr_tt, tr_ff])
-
-theorem notFoEq_destEq {t : Tm} {k : Nat} {a b : Tm} (h : destEq t = some (k, a, b)) (hn : notFoEq t = true) :
-    t = mkIff a b := by
-  rcases goalEq_spec.destEq_spec' h with ⟨_, e⟩ | ⟨_, e⟩
-  · exact e
-  · subst e; simp [notFoEq] at hn
-
-theorem equivSimplify_sound (I : Interp) (cl s) (h : equivSimplify cl = .ok s)
-    (hk : wellKinded .equivSimplify cl [] = true) : s.holds I := by
-  unfold equivSimplify at h
-  split at h
-  · contradiction
-  rename_i g lhs rhs hg
-  simp only [wellKinded, hg, Bool.and_eq_true] at hk
-  obtain ⟨hk1, hk2, hk3⟩ := hk
-  have hgi := goal_iff hg hk1
-  subst hgi
-  split at h
-  · contradiction
-  rename_i k a b hl
-  have hle := notFoEq_destEq hl hk2
-  subst hle
-  split at h
-  · rename_i hc1
-    cases h
-    unfold equivCase1 at hc1
-    split at hc1
-    · rename_i k' c d hr
-      have hre := notFoEq_destEq hr hk3
-      subst hre
-      simp only [Bool.and_eq_true, beq_iff_eq] at hc1
-      obtain ⟨rfl, rfl⟩ := hc1
-      intro _
-      simp only [tr_iff, tr_not]
-      grind
-    · simp at hc1
-  repeat' (split at h <;> try contradiction)
-  all_goals (cases h)
-  all_goals (simp_all [Seq.holds])
-  all_goals (try grind [tr_tt, tr_ff])
-
-theorem notSimplify_hyps (cl s) (h : notSimplify cl = .ok s) : s.hyps = [] := by
-  unfold notSimplify at h
-  split at h
-  · contradiction
-  try dsimp only at h
-  repeat' (split at h <;> try contradiction)
-  all_goals (cases h; rfl)
-
-theorem andSimplify_hyps (cl s) (h : andSimplify cl = .ok s) : s.hyps = [] := by
-  unfold andSimplify at h
-  split at h
-  · contradiction
-  try dsimp only at h
-  repeat' (split at h <;> try contradiction)
-  all_goals (cases h; rfl)
-
-theorem orSimplify_hyps (cl s) (h : orSimplify cl = .ok s) : s.hyps = [] := by
-  unfold orSimplify at h
-  split at h
-  · contradiction
-  try dsimp only at h
-  repeat' (split at h <;> try contradiction)
-  all_goals (cases h; rfl)
-
-theorem impliesSimplify_hyps (cl s) (h : impliesSimplify cl = .ok s) : s.hyps = [] := by
-  unfold impliesSimplify at h
-  split at h
-  · contradiction
-  try dsimp only at h
-  repeat' (split at h <;> try contradiction)
-  all_goals (cases h; rfl)
-
-theorem equivSimplify_hyps (cl s) (h : equivSimplify cl = .ok s) : s.hyps = [] := by
-  unfold equivSimplify at h
-  split at h
-  · contradiction
-  try dsimp only at h
-  repeat' (split at h <;> try contradiction)
-  all_goals (cases h; rfl)
-
-theorem boolSimplify_hyps (cl s) (h : boolSimplify cl = .ok s) : s.hyps = [] := by
-  unfold boolSimplify at h
-  split at h
-  · contradiction
-  try dsimp only at h
-  repeat' (split at h <;> try contradiction)
-  all_goals (cases h; rfl)
-
 end Holpy.C18
